@@ -286,11 +286,19 @@ class State(execution.State):
     ) -> "State":
         handler_states: dict[ids.HandlerId, HandlerState] = dict(self)
         for handler in handlers:
-            if handler.id not in handler_states:
+            # A state left by another cause belongs to this handler only if the handler serves
+            # any cause (e.g. resuming mixed into updating). A handler declared for one specific
+            # cause starts from scratch: that state is of its namesake (e.g. one function with
+            # both @kopf.on.update & @kopf.on.delete, and so with the same id for both handlers).
+            old_state = handler_states.get(handler.id)
+            is_namesake = (old_state is not None and old_state.purpose is not None
+                           and self.purpose is not None and old_state.purpose != self.purpose
+                           and getattr(handler, 'reason', None) is not None)
+            if old_state is None or is_namesake:
                 handler_states[handler.id] = HandlerState.from_scratch(
                     basetime=self.basetime, purpose=self.purpose)
             else:
-                handler_states[handler.id] = handler_states[handler.id].as_active()
+                handler_states[handler.id] = old_state.as_active()
         cls = type(self)
         return cls(handler_states, basetime=self.basetime, purpose=self.purpose)
 
